@@ -232,7 +232,6 @@ func gVote(c *Check) {
 	}
 }
 
-
 // G-ELECT — a node becomes leader only by winning the tally of its own candidacy.
 func gElect(c *Check) {
 	p := c.P
